@@ -257,6 +257,18 @@ fn run(payload: &str) -> String {
         _ => return "bad-case".to_string(),
     };
     let log: Log = Rc::new(RefCell::new(vec![]));
+    // the built-in provider (`Vec<LanguageIdentifier>`): it hands over exactly the locales it holds, in their order -
+    // also the root locale and locales without a language subtag
+    let vec_provider_ok = {
+        let mut v: Vec<LanguageIdentifier> = locales.clone();
+        for extra in ["und", "und-Latn", "en-US", "und-Cyrl-RS"] {
+            if let Ok(l) = extra.parse::<LanguageIdentifier>() {
+                v.push(l);
+            }
+        }
+        let got: Vec<LanguageIdentifier> = <Vec<LanguageIdentifier> as LocalesProvider>::locales(&v).collect();
+        got == v
+    };
     let prov = Prov(Rc::new(RefCell::new(locales)));
     let generator = LogGen { log: log.clone(), calls: Rc::new(Cell::new(0)) };
     let mut loc: Localization<LogGen, Prov> = Localization::with_env(ids, sync, prov.clone(), generator);
@@ -383,6 +395,11 @@ fn run(payload: &str) -> String {
         };
         let new: Vec<String> = log.borrow()[n0..].to_vec();
         outs.push(format!("{}|L[{}]", o.unwrap_or_else(|| "bad-op".to_string()), new.join(",")));
+    }
+    if !vec_provider_ok {
+        if let Some(first) = outs.first_mut() {
+            first.push_str(" VEC-PROVIDER-DISAGREE");
+        }
     }
     outs.join(";")
 }
